@@ -1136,9 +1136,11 @@ func ruleScaleWire(c *Ctx) {
 // CIRCLEWIRE
 
 func ruleCircleWire(c *Ctx) {
+	circleDecided := false
 	// the conversions themselves, decided on 28 keys x 40 chains by folding when it folds
 	if fn := c.fn("op", "KeyConversionChain.Convert"); fn != nil {
-		if problem, n, ok := c.circleByFolding(); ok {
+		if problem, n, ok := c.circleVerdict(); ok {
+			circleDecided = problem == ""
 			c.site(1)
 			c.check(problem == "", "op.KeyConversionChain.Convert|domain", c.pos(fn.Pos()), fname(fn), fmt.Sprintf("%d chains (28 keys x every chain of length 1 and 2, the chains x y x, twelve dominants, twelve subdominants, two long alternations) folded on NewCircleOfFifth(): each equals the composition of its steps and lists every supported spelling", n), fname(fn)+": "+problem)
 		}
@@ -1249,7 +1251,10 @@ func ruleCircleWire(c *Ctx) {
 		c.missing("op.CircleOfFifth.index")
 	}
 	// Circle.Index: all slots, membership by Keys().In(key), returns the slot index
-	if fn := c.fn("op", "Circle.Index"); fn != nil {
+	if fn := c.fn("op", "Circle.Index"); fn != nil && circleDecided {
+		c.site(1)
+		c.ok(fname(fn), c.pos(fn.Pos()), fname(fn), "decided by op.KeyConversionChain.Convert|domain: every conversion step from every key was folded on the real circle, however a key's slot is found")
+	} else if fn != nil {
 		c.site(1)
 		// the membership test: Keys().In(key), or the comma-ok of Get(key), of the member in slot i
 		var in ssa.CallInstruction
